@@ -522,3 +522,24 @@ fn process_undelegations(
 
     Ok(undelegated_msgs)
 }
+
+/// Verification hooks (add-only, compiled only with `--cfg kryptonitedao_krp_staking_contracts_verif`):
+/// public wrappers so that /verif's replay crate can call the private kernels.
+#[cfg(kryptonitedao_krp_staking_contracts_verif)]
+pub fn verif_calculate_new_withdraw_rate(
+    amount: Uint128,
+    withdraw_rate: Decimal,
+    total_unbonded_amount: Uint256,
+    slashed_amount: SignedInt,
+) -> Decimal {
+    calculate_new_withdraw_rate(amount, withdraw_rate, total_unbonded_amount, slashed_amount)
+}
+
+#[cfg(kryptonitedao_krp_staking_contracts_verif)]
+pub fn verif_process_withdraw_rate(
+    deps: &mut DepsMut,
+    historical_time: u64,
+    hub_balance: Uint128,
+) -> StdResult<()> {
+    process_withdraw_rate(deps, historical_time, hub_balance)
+}
